@@ -1,12 +1,1558 @@
-//! C19 — not built yet (stub; see DESIGN.md §5).
-use crate::ctx::Tier;
-use serde_json::Value;
+//! C19 — fleet calls retry only transport failures, boundedly, and recover
+//! afterwards (E3, fault sequences against the real `Fleet` / `AsyncFleet`).
+//!
+//! A scenario = (fleet flavour, call API, max_attempts, script). The script is a
+//! sequence over the seven per-attempt outcomes of the property; a fake node
+//! (`c19_node.rs`) presents them to the fleet one per attempt, in order, and
+//! records every attempt with the call it belongs to. The harness issues calls
+//! one at a time until the script is used up, then two more calls against the
+//! now healthy node. Every sequence of length <= max_attempts+2 is run.
+//!
+//! The oracle is the property text, clause by clause (inequalities, not a copy
+//! of the retry loop):
+//!   O1  attempts observed in one call <= max_attempts
+//!   O2  an attempt that is not the first of its call follows a transport-level
+//!       failure (or a malformed reply, which the property does not classify),
+//!       never a reply (success or application error)
+//!   O3  the call reports the reply if one was received, otherwise a transport
+//!       error, namely the one of its last attempt
+//!   O4  once the script is exhausted and the node answers normally, a later
+//!       call succeeds (the node is not wedged)
+//!   O5  a broadcast returns exactly one result per node whose tags include all
+//!       requested tags and contacts no other node
+//! Agreement with the exact loop (attempts == min(first non-retryable, max)) is
+//! only counted.
+//!
+//! Timing discipline. Every step waits for a predicted positive event (connect
+//! call, whole request readable, EOF, call returned) under a 10 s watchdog. The
+//! one real-time element is the fleet's own node timeout (150 ms) which a
+//! silent attempt has to run into. Verdicts use counts and results only. A run
+//! in which something that never waits took about a node timeout (or a request
+//! surfaced after its call had returned) was disturbed by the machine and is
+//! repeated; a violation is reported only if it reproduces from its recorded
+//! case in the re-runs (`settle`), so neither a scheduling hiccup nor a one-off
+//! watchdog expiry can become a verdict.
 
-pub fn run(_tier: Tier) -> ! {
-    eprintln!("MACHINERY-ERROR property=C19 check not built yet");
-    std::process::exit(2)
+#[path = "c19_node.rs"]
+mod node;
+
+use crate::ctx::{Ctx, Samples, Tier};
+use node::{ALPHABET, Attempt, FakeNode, Garbage, Out, Realized, Watch};
+use repe::{AsyncFleet, Fleet, FleetOptions, NodeConfig, RemoteResult, RepeError, RetryPolicy};
+use serde_json::{Value, json};
+use std::collections::{BTreeMap, BTreeSet};
+use std::sync::atomic::{AtomicU64, Ordering};
+use std::time::{Duration, Instant};
+
+const NODE_TIMEOUT: Duration = Duration::from_millis(150);
+const RETRY_DELAY: Duration = Duration::from_millis(1);
+const HEALTHY_CALLS: usize = 2;
+/// A call that overran by about a node timeout or more is taken for a
+/// scheduling hiccup and its scenario is repeated this many times at most (a
+/// call that never returns is not a hiccup: it is judged, and must reproduce).
+const DISTURBED_RETRIES: usize = 5;
+const TAGS: [&str; 2] = ["a", "b"];
+const TAG_NODES: usize = 4;
+const TAG_MAX_ATTEMPTS: usize = 2;
+const TAG_NODE_TIMEOUT: Duration = Duration::from_secs(3);
+
+#[derive(Clone, Copy, PartialEq, Eq, Debug, PartialOrd, Ord)]
+enum Kind {
+    Blocking,
+    Async,
 }
 
-pub fn replay(_case: &Value) -> Result<(), String> {
-    Err("no replay for C19 yet".into())
+impl Kind {
+    fn name(self) -> &'static str {
+        match self {
+            Kind::Blocking => "fleet",
+            Kind::Async => "async",
+        }
+    }
+    fn parse(s: &str) -> Option<Kind> {
+        match s {
+            "fleet" => Some(Kind::Blocking),
+            "async" => Some(Kind::Async),
+            _ => None,
+        }
+    }
+}
+
+#[derive(Clone, Copy, PartialEq, Eq, Debug, PartialOrd, Ord)]
+enum Api {
+    Json,
+    Message,
+}
+
+impl Api {
+    fn name(self) -> &'static str {
+        match self {
+            Api::Json => "call_json",
+            Api::Message => "call_message",
+        }
+    }
+    fn parse(s: &str) -> Option<Api> {
+        match s {
+            "call_json" => Some(Api::Json),
+            "call_message" => Some(Api::Message),
+            _ => None,
+        }
+    }
+}
+
+// ---------------------------------------------------------------------------
+// normalised call results
+
+#[derive(Clone, Debug, PartialEq)]
+enum Res {
+    Ok(Value),
+    Server { code: u32, msg: String },
+    Io { kind: String, msg: String },
+    Other { msg: String },
+    Missing,
+    FleetErr(String),
+    Panic(String),
+    Hang,
+}
+
+impl Res {
+    fn class(&self) -> String {
+        match self {
+            Res::Ok(_) => "Ok".into(),
+            Res::Server { code, .. } => format!("ServerError({code})"),
+            Res::Io { kind, .. } => format!("Io({kind})"),
+            Res::Other { msg } => format!("Other({})", msg.split(':').next().unwrap_or("")),
+            Res::Missing => "Missing".into(),
+            Res::FleetErr(_) => "FleetError".into(),
+            Res::Panic(_) => "Panic".into(),
+            Res::Hang => "Hang".into(),
+        }
+    }
+    fn show(&self) -> String {
+        match self {
+            Res::Ok(v) => format!("Ok({v})"),
+            Res::Server { code, msg } => format!("ServerError({code}, {msg:?})"),
+            Res::Io { kind, msg } => format!("Io({kind}, {msg:?})"),
+            Res::Other { msg } => format!("Err({msg:?})"),
+            Res::Missing => "no value and no error".into(),
+            Res::FleetErr(e) => format!("FleetError({e})"),
+            Res::Panic(p) => format!("PANIC({p})"),
+            Res::Hang => "no return within the watchdog (100 beats of 100 ms)".into(),
+        }
+    }
+    fn is_io(&self) -> bool {
+        matches!(self, Res::Io { .. })
+    }
+    fn is_err(&self) -> bool {
+        matches!(self, Res::Server { .. } | Res::Io { .. } | Res::Other { .. })
+    }
+}
+
+fn norm_err(e: RepeError) -> Res {
+    match e {
+        RepeError::Io(io) => Res::Io { kind: format!("{:?}", io.kind()), msg: io.to_string() },
+        RepeError::ServerError { code, message } => Res::Server { code: u32::from(code), msg: message },
+        other => Res::Other { msg: other.to_string() },
+    }
+}
+
+fn norm_value(r: RemoteResult<Value>) -> Res {
+    match (r.value, r.error) {
+        (Some(v), None) => Res::Ok(v),
+        (_, Some(e)) => norm_err(e),
+        (None, None) => Res::Missing,
+    }
+}
+
+fn norm_message(r: RemoteResult<repe::Message>) -> Res {
+    match (r.value, r.error) {
+        (Some(m), None) => match serde_json::from_slice::<Value>(&m.body) {
+            Ok(v) => Res::Ok(v),
+            Err(e) => Res::Other { msg: format!("reply body is not the JSON the node sent: {e}") },
+        },
+        (_, Some(e)) => norm_err(e),
+        (None, None) => Res::Missing,
+    }
+}
+
+fn panic_text(p: Box<dyn std::any::Any + Send>) -> String {
+    p.downcast_ref::<&str>()
+        .map(|s| s.to_string())
+        .or_else(|| p.downcast_ref::<String>().cloned())
+        .unwrap_or_else(|| "panic".into())
+}
+
+// ---------------------------------------------------------------------------
+// watchdog (beats of this process, see c19_node.rs)
+
+fn wait_result<T>(rx: &std::sync::mpsc::Receiver<T>) -> Option<T> {
+    let w = Watch::start();
+    loop {
+        match rx.recv_timeout(Watch::SLICE) {
+            Ok(v) => return Some(v),
+            Err(std::sync::mpsc::RecvTimeoutError::Timeout) if !w.expired() => {}
+            Err(_) => return None,
+        }
+    }
+}
+
+async fn watched<F: std::future::Future>(fut: F) -> Option<F::Output> {
+    let w = Watch::start();
+    tokio::pin!(fut);
+    loop {
+        match tokio::time::timeout(Watch::SLICE, &mut fut).await {
+            Ok(v) => return Some(v),
+            Err(_) if !w.expired() => {}
+            Err(_) => return None,
+        }
+    }
+}
+
+// ---------------------------------------------------------------------------
+// the two fleets behind one driver
+
+enum Driver {
+    B(Fleet),
+    A { fleet: AsyncFleet, rt: Option<tokio::runtime::Runtime> },
+}
+
+/// The call number travels in the path so that the node can tell a request
+/// that surfaces after its call has already returned.
+fn path(call: u64) -> String {
+    format!("/c19/op/{call}")
+}
+
+impl Driver {
+    fn new(kind: Kind, configs: Vec<NodeConfig>, max: usize) -> Result<Driver, String> {
+        let opts = FleetOptions {
+            default_timeout: Duration::from_secs(5),
+            retry_policy: RetryPolicy { max_attempts: max, delay: RETRY_DELAY },
+        };
+        match kind {
+            Kind::Blocking => Fleet::with_options(configs, opts).map(Driver::B).map_err(|e| e.to_string()),
+            Kind::Async => {
+                let rt = tokio::runtime::Builder::new_multi_thread()
+                    .worker_threads(1)
+                    .thread_stack_size(512 * 1024)
+                    .enable_all()
+                    .build()
+                    .map_err(|e| format!("tokio runtime: {e}"))?;
+                let fleet = AsyncFleet::with_options(configs, opts).map_err(|e| e.to_string())?;
+                Ok(Driver::A { fleet, rt: Some(rt) })
+            }
+        }
+    }
+
+    fn call(&self, node_name: &str, api: Api, call: u64) -> Res {
+        let params = json!({"call": call});
+        let path = path(call);
+        let path = path.as_str();
+        match self {
+            Driver::B(f) => {
+                let f = f.clone();
+                let name = node_name.to_string();
+                let path = path.to_string();
+                let (tx, rx) = std::sync::mpsc::channel();
+                let spawned = std::thread::Builder::new()
+                    .name("c19-call".into())
+                    .stack_size(512 * 1024)
+                    .spawn(move || {
+                        let r = std::panic::catch_unwind(std::panic::AssertUnwindSafe(|| match api {
+                            Api::Json => match f.call_json(&name, &path, Some(&params)) {
+                                Ok(r) => norm_value(r),
+                                Err(e) => Res::FleetErr(e.to_string()),
+                            },
+                            Api::Message => match f.call_message(&name, &path) {
+                                Ok(r) => norm_message(r),
+                                Err(e) => Res::FleetErr(e.to_string()),
+                            },
+                        }));
+                        let _ = tx.send(r.unwrap_or_else(|p| Res::Panic(panic_text(p))));
+                    });
+                if spawned.is_err() {
+                    return Res::Panic("could not spawn the call thread".into());
+                }
+                wait_result(&rx).unwrap_or(Res::Hang)
+            }
+            Driver::A { fleet, rt } => {
+                let rt = rt.as_ref().unwrap();
+                let r = std::panic::catch_unwind(std::panic::AssertUnwindSafe(|| {
+                    rt.block_on(async {
+                        let fut = async {
+                            match api {
+                                Api::Json => match fleet.call_json(node_name, path, Some(&params)).await {
+                                    Ok(r) => norm_value(r),
+                                    Err(e) => Res::FleetErr(e.to_string()),
+                                },
+                                Api::Message => match fleet.call_message(node_name, path).await {
+                                    Ok(r) => norm_message(r),
+                                    Err(e) => Res::FleetErr(e.to_string()),
+                                },
+                            }
+                        };
+                        watched(fut).await.unwrap_or(Res::Hang)
+                    })
+                }));
+                r.unwrap_or_else(|p| Res::Panic(panic_text(p)))
+            }
+        }
+    }
+
+    fn broadcast(&self, tags: &[&str], call: u64) -> Result<BTreeMap<String, Res>, Res> {
+        let params = json!({"call": call});
+        let path = path(call);
+        let path = path.as_str();
+        match self {
+            Driver::B(f) => {
+                let f = f.clone();
+                let tags: Vec<String> = tags.iter().map(|s| s.to_string()).collect();
+                let path = path.to_string();
+                let (tx, rx) = std::sync::mpsc::channel();
+                let spawned = std::thread::Builder::new()
+                    .name("c19-bcast".into())
+                    .stack_size(512 * 1024)
+                    .spawn(move || {
+                        let r = std::panic::catch_unwind(std::panic::AssertUnwindSafe(|| {
+                            f.broadcast_json(&path, Some(&params), &tags)
+                                .into_iter()
+                                .map(|(k, v)| (k, norm_value(v)))
+                                .collect::<BTreeMap<_, _>>()
+                        }));
+                        let _ = tx.send(r.map_err(|p| Res::Panic(panic_text(p))));
+                    });
+                if spawned.is_err() {
+                    return Err(Res::Panic("could not spawn the broadcast thread".into()));
+                }
+                wait_result(&rx).unwrap_or(Err(Res::Hang))
+            }
+            Driver::A { fleet, rt } => {
+                let rt = rt.as_ref().unwrap();
+                let r = std::panic::catch_unwind(std::panic::AssertUnwindSafe(|| {
+                    rt.block_on(async {
+                        let fut = async {
+                            fleet
+                                .broadcast_json(path, Some(&params), tags)
+                                .await
+                                .into_iter()
+                                .map(|(k, v)| (k, norm_value(v)))
+                                .collect::<BTreeMap<_, _>>()
+                        };
+                        watched(fut).await.ok_or(Res::Hang)
+                    })
+                }));
+                r.unwrap_or_else(|p| Err(Res::Panic(panic_text(p))))
+            }
+        }
+    }
+
+    fn is_connected(&self, node_name: &str) -> Option<bool> {
+        match self {
+            Driver::B(f) => f.is_connected(node_name).ok(),
+            Driver::A { fleet, rt } => rt.as_ref().unwrap().block_on(fleet.is_connected(node_name)).ok(),
+        }
+    }
+}
+
+impl Drop for Driver {
+    fn drop(&mut self) {
+        if let Driver::A { rt, .. } = self {
+            if let Some(rt) = rt.take() {
+                rt.shutdown_background();
+            }
+        }
+    }
+}
+
+// ---------------------------------------------------------------------------
+// single-node scenarios
+
+#[derive(Clone, Debug, PartialEq)]
+struct Scenario {
+    kind: Kind,
+    api: Api,
+    max: usize,
+    garbage: Garbage,
+    script: Vec<Out>,
+}
+
+fn letters(s: &[Out]) -> String {
+    s.iter().map(|o| o.letter()).collect::<Vec<_>>().join("")
+}
+
+impl Scenario {
+    fn to_json(&self) -> Value {
+        json!({
+            "shape": "single",
+            "fleet": self.kind.name(),
+            "api": self.api.name(),
+            "max_attempts": self.max,
+            "malformed": self.garbage.name(),
+            "script": self.script.iter().map(|o| o.letter()).collect::<Vec<_>>(),
+            "legend": "R refused, A accepted-then-closed, I closed-while-idle (answered, then closed idle), T silent-until-timeout, M malformed reply, E application error, S success",
+        })
+    }
+    fn from_json(v: &Value) -> Option<Scenario> {
+        let script = v["script"]
+            .as_array()?
+            .iter()
+            .map(|x| x.as_str().and_then(Out::from_letter))
+            .collect::<Option<Vec<_>>>()?;
+        Some(Scenario {
+            kind: Kind::parse(v["fleet"].as_str()?)?,
+            api: Api::parse(v["api"].as_str()?)?,
+            max: v["max_attempts"].as_u64()? as usize,
+            garbage: match v["malformed"].as_str()? {
+                "bad-spec" => Garbage::BadSpec,
+                "bad-length" => Garbage::BadLength,
+                _ => return None,
+            },
+            script,
+        })
+    }
+    fn label(&self) -> String {
+        format!(
+            "{} {} max_attempts={} script=[{}]{}",
+            self.kind.name(),
+            self.api.name(),
+            self.max,
+            letters(&self.script),
+            if self.script.contains(&Out::Malformed) { format!(" malformed={}", self.garbage.name()) } else { String::new() }
+        )
+    }
+}
+
+#[derive(Clone, Debug)]
+struct CallObs {
+    healthy_phase: bool,
+    /// a connection of this node was killed since the previous call began, so a
+    /// fleet that still holds its client may fail once without reaching the node
+    excused: bool,
+    remaining_at_start: Vec<Out>,
+    last_failure_before: Option<Out>,
+    attempts: Vec<Attempt>,
+    res: Res,
+    connected_after: Option<bool>,
+    elapsed: Duration,
+}
+
+#[derive(Clone, Debug)]
+struct ScenObs {
+    calls: Vec<CallObs>,
+    /// the script phase was abandoned: a call reached nothing and had no excuse
+    stalled: bool,
+    dropped_outcomes: usize,
+    expected_replies: BTreeMap<u64, Value>,
+    expected_errors: BTreeMap<u64, String>,
+    /// the run was disturbed by the machine (something that never waits took
+    /// about a node timeout): it is repeated, never judged on its timing
+    disturbed: Option<String>,
+}
+
+fn run_single(sc: &Scenario) -> Result<ScenObs, String> {
+    let node = FakeNode::start("n0", sc.script.clone(), sc.garbage)?;
+    let cfg = NodeConfig::new("127.0.0.1", node.port())
+        .and_then(|c| c.with_name("n0"))
+        .and_then(|c| c.with_timeout(NODE_TIMEOUT))
+        .map_err(|e| e.to_string())?;
+    let driver = Driver::new(sc.kind, vec![cfg], sc.max)?;
+    let mut obs = ScenObs {
+        calls: Vec::new(),
+        stalled: false,
+        dropped_outcomes: 0,
+        expected_replies: BTreeMap::new(),
+        expected_errors: BTreeMap::new(),
+        disturbed: None,
+    };
+    let cap = 2 * sc.script.len() + 2;
+    let mut call_no: u64 = 0;
+    let mut abort = false;
+
+    let one_call = |healthy: bool, obs: &mut ScenObs, call_no: &mut u64| -> Result<bool, String> {
+        *call_no += 1;
+        let start = node.begin_call(*call_no)?;
+        let t_call = Instant::now();
+        let res = driver.call("n0", sc.api, *call_no);
+        let elapsed = t_call.elapsed();
+        let hung = matches!(res, Res::Hang);
+        if hung {
+            eprintln!("[C19] call #{} of {} hung; node: {}", *call_no, sc.label(), node.debug_state());
+        }
+        let attempts = if hung { Vec::new() } else { node.end_call(*call_no)? };
+        for a in &attempts {
+            match a.realized {
+                Realized::ReplyOk => {
+                    obs.expected_replies.insert(a.serial, node.sh.reply_value(a.serial));
+                }
+                Realized::ReplyErr { .. } => {
+                    obs.expected_errors.insert(a.serial, node.sh.error_message(a.serial));
+                }
+                _ => {}
+            }
+        }
+        let connected_after = if hung { None } else { driver.is_connected("n0") };
+        obs.calls.push(CallObs {
+            healthy_phase: healthy,
+            excused: start.excused,
+            remaining_at_start: start.remaining,
+            last_failure_before: start.last_failure,
+            attempts,
+            res,
+            connected_after,
+            elapsed,
+        });
+        Ok(hung)
+    };
+
+    while node.remaining() > 0 && obs.calls.len() < cap {
+        if one_call(false, &mut obs, &mut call_no)? {
+            abort = true;
+            break;
+        }
+        let c = obs.calls.last().unwrap();
+        if c.attempts.is_empty() && !c.excused {
+            obs.stalled = true;
+            break;
+        }
+    }
+    if !abort {
+        if node.remaining() > 0 {
+            obs.stalled = true;
+        }
+        obs.dropped_outcomes = node.set_healthy();
+        for _ in 0..HEALTHY_CALLS {
+            if one_call(true, &mut obs, &mut call_no)? {
+                break;
+            }
+        }
+    }
+    let errs = node.errors();
+    let anomalies = node.anomalies();
+    drop(driver);
+    node.stop();
+    if !errs.is_empty() {
+        return Err(format!("fake node trouble: {}", errs.join("; ")));
+    }
+    if let Some(a) = anomalies.first() {
+        obs.disturbed = Some(a.clone());
+    }
+    for (i, c) in obs.calls.iter().enumerate() {
+        // the only thing in a call that waits is a silent attempt
+        let silent = c.attempts.iter().filter(|a| a.realized == Realized::Silent).count() as u32;
+        let excess = c.elapsed.saturating_sub(NODE_TIMEOUT * silent);
+        if excess >= NODE_TIMEOUT * 4 / 5 && !matches!(c.res, Res::Hang) {
+            obs.disturbed = Some(format!(
+                "call #{} took {} ms with {silent} silent attempt(s)",
+                i + 1,
+                c.elapsed.as_millis()
+            ));
+            break;
+        }
+    }
+    Ok(obs)
+}
+
+#[derive(Clone, Debug, PartialEq, Eq, PartialOrd, Ord)]
+struct Viol {
+    key: String,
+    what: String,
+}
+
+/// io::ErrorKind names a transport failure of this kind may surface as.
+fn transport_class(r: Realized) -> &'static [&'static str] {
+    match r {
+        Realized::Refused => &["ConnectionRefused"],
+        Realized::Reset | Realized::DownReset => {
+            &["ConnectionReset", "UnexpectedEof", "ConnectionAborted", "BrokenPipe", "NotConnected"]
+        }
+        Realized::Silent => &["TimedOut", "WouldBlock"],
+        _ => &[],
+    }
+}
+
+fn show_attempts(a: &[Attempt]) -> String {
+    format!("[{}]", a.iter().map(|x| x.outcome.letter()).collect::<Vec<_>>().join(","))
+}
+
+fn show_calls(obs: &ScenObs) -> String {
+    obs.calls
+        .iter()
+        .enumerate()
+        .map(|(i, c)| {
+            format!(
+                "#{}{}{} attempts={} -> {}{}",
+                i + 1,
+                if c.healthy_phase { "(healthy)" } else { "" },
+                if c.excused { "(after a killed connection)" } else { "" },
+                show_attempts(&c.attempts),
+                c.res.show(),
+                match c.connected_after {
+                    Some(b) => format!(" is_connected={b}"),
+                    None => String::new(),
+                }
+            )
+        })
+        .collect::<Vec<_>>()
+        .join(" | ")
+}
+
+fn judge_single(sc: &Scenario, obs: &ScenObs) -> Vec<Viol> {
+    let f = sc.kind.name();
+    let mut out: Vec<Viol> = Vec::new();
+    let mut add = |key: String, what: String| {
+        if !out.iter().any(|v| v.key == key) {
+            out.push(Viol { key, what: format!("{what}; scenario {}; calls: {}", sc.label(), show_calls(obs)) });
+        }
+    };
+    for (i, c) in obs.calls.iter().enumerate() {
+        let n = c.attempts.len();
+        let callno = i + 1;
+        match &c.res {
+            Res::Panic(p) => add(format!("C19:panic:{f}"), format!("call #{callno} panicked: {p}")),
+            Res::Hang => add(format!("C19:call-hung:{f}"), format!("call #{callno} did not return within the watchdog (>= 10 s of this process running)")),
+            Res::FleetErr(e) => add(format!("C19:fleet-error:{f}"), format!("call #{callno} was rejected by the fleet: {e}")),
+            _ => {}
+        }
+        if matches!(c.res, Res::Panic(_) | Res::Hang | Res::FleetErr(_)) {
+            continue;
+        }
+        // O1: at most the configured number of attempts
+        if n > sc.max {
+            add(
+                format!("C19:too-many-attempts:{f}"),
+                format!("call #{callno} made {n} attempts at the node with max_attempts={}", sc.max),
+            );
+        }
+        // O2: retries only after transport-level failures; stops at the first reply
+        for w in c.attempts.windows(2) {
+            if w[0].outcome.is_reply() {
+                let cls = if w[0].outcome == Out::AppErr { "application-error" } else { "success" };
+                add(
+                    format!("C19:attempt-after-reply:{cls}:{f}"),
+                    format!(
+                        "call #{callno} made another attempt (#{}) after attempt #{} had been answered ({})",
+                        w[1].serial,
+                        w[0].serial,
+                        w[0].outcome.name()
+                    ),
+                );
+            }
+        }
+        // O3: reports that reply, or the last transport error
+        if let Some(reply) = c.attempts.iter().find(|a| a.outcome.is_reply()) {
+            let good = match reply.realized {
+                Realized::ReplyOk => obs.expected_replies.get(&reply.serial).is_some_and(|v| c.res == Res::Ok(v.clone())),
+                Realized::ReplyErr { code } => match &c.res {
+                    Res::Server { code: got, msg } => {
+                        *got == code && obs.expected_errors.get(&reply.serial).is_some_and(|m| m == msg)
+                    }
+                    _ => false,
+                },
+                _ => false,
+            };
+            if !good {
+                add(
+                    format!("C19:result-not-the-reply:{f}"),
+                    format!(
+                        "call #{callno} received the reply of attempt #{} ({}) but reported {}",
+                        reply.serial,
+                        reply.outcome.name(),
+                        c.res.show()
+                    ),
+                );
+            }
+        } else if let Some(last) = c.attempts.last() {
+            if last.outcome == Out::Malformed {
+                // unclassified by the property: any error will do, a value will not
+                if !c.res.is_err() {
+                    add(
+                        format!("C19:value-without-reply:{f}"),
+                        format!("call #{callno} ended on a malformed reply yet reported {}", c.res.show()),
+                    );
+                }
+            } else {
+                let cls = transport_class(last.realized);
+                match &c.res {
+                    Res::Io { kind, .. } if cls.contains(&kind.as_str()) => {}
+                    Res::Io { kind, .. }
+                        if c.attempts.iter().any(|a| transport_class(a.realized).contains(&kind.as_str())) =>
+                    {
+                        add(
+                            format!("C19:result-not-last-transport-error:{f}"),
+                            format!(
+                                "call #{callno} got no reply; its last attempt failed as {} but it reported {} (the error of an earlier attempt)",
+                                last.outcome.name(),
+                                c.res.show()
+                            ),
+                        );
+                    }
+                    _ => add(
+                        format!("C19:result-not-transport-error:{f}"),
+                        format!(
+                            "call #{callno} got no reply; its last attempt failed as {} but it reported {}",
+                            last.outcome.name(),
+                            c.res.show()
+                        ),
+                    ),
+                }
+            }
+        } else if c.excused && !c.res.is_io() {
+            // nothing reached the node (a dead cached connection): only a transport error fits
+            add(
+                format!("C19:result-not-transport-error:{f}"),
+                format!("call #{callno} reached the node with no attempt yet reported {}", c.res.show()),
+            );
+        }
+        // O4: never wedged
+        if c.healthy_phase && !c.excused && !matches!(c.res, Res::Ok(_)) {
+            let cause = c.last_failure_before.map(|o| o.name()).unwrap_or("nothing");
+            add(
+                format!("C19:wedged-after:{cause}:{f}"),
+                format!(
+                    "node healthy and listening, no connection killed since the previous call, yet call #{callno} made {n} attempt(s) and reported {} (is_connected={:?}); last failure the node inflicted: {cause}",
+                    c.res.show(),
+                    c.connected_after
+                ),
+            );
+        }
+    }
+    out
+}
+
+// ---------------------------------------------------------------------------
+// broadcast / tag addressing
+
+#[derive(Clone, Debug, PartialEq)]
+struct TagScenario {
+    kind: Kind,
+    /// bit t set = node carries TAGS[t]
+    assign: [u8; TAG_NODES],
+}
+
+impl TagScenario {
+    fn to_json(&self) -> Value {
+        json!({"shape": "tags", "fleet": self.kind.name(), "assign": self.assign.to_vec(), "tags": TAGS})
+    }
+    fn from_json(v: &Value) -> Option<TagScenario> {
+        let a = v["assign"].as_array()?;
+        if a.len() != TAG_NODES {
+            return None;
+        }
+        let mut assign = [0u8; TAG_NODES];
+        for (i, x) in a.iter().enumerate() {
+            assign[i] = x.as_u64()? as u8;
+        }
+        Some(TagScenario { kind: Kind::parse(v["fleet"].as_str()?)?, assign })
+    }
+    fn label(&self) -> String {
+        format!(
+            "{} broadcast nodes=[{}]",
+            self.kind.name(),
+            self.assign.iter().enumerate().map(|(i, m)| format!("n{i}:{{{}}}", mask_tags(*m).join(","))).collect::<Vec<_>>().join(" ")
+        )
+    }
+}
+
+fn mask_tags(m: u8) -> Vec<&'static str> {
+    TAGS.iter().enumerate().filter(|(t, _)| m & (1 << t) != 0).map(|(_, s)| *s).collect()
+}
+
+#[derive(Clone, Debug)]
+struct BcastObs {
+    requested: u8,
+    down: Option<usize>,
+    results: Result<BTreeMap<String, Res>, Res>,
+    attempts: Vec<Vec<Attempt>>,
+    expected_replies: BTreeMap<(usize, u64), Value>,
+}
+
+fn run_tags(ts: &TagScenario) -> Result<Vec<BcastObs>, String> {
+    let mut nodes = Vec::new();
+    let mut cfgs = Vec::new();
+    for i in 0..TAG_NODES {
+        let n = FakeNode::start(&format!("n{i}"), vec![], Garbage::BadSpec)?;
+        let cfg = NodeConfig::new("127.0.0.1", n.port())
+            .and_then(|c| c.with_name(format!("n{i}")))
+            .and_then(|c| c.with_timeout(TAG_NODE_TIMEOUT))
+            .map_err(|e| e.to_string())?
+            .with_tags(mask_tags(ts.assign[i]));
+        cfgs.push(cfg);
+        nodes.push(n);
+    }
+    let driver = Driver::new(ts.kind, cfgs, TAG_MAX_ATTEMPTS)?;
+    let mut out = Vec::new();
+    let mut call: u64 = 0;
+    let full = (1u8 << TAGS.len()) - 1;
+    // every requested set with all nodes up (first round on a fleet that has no
+    // connection yet, later rounds on cached ones), then once more the empty
+    // set with one node down
+    let down_node = ts.assign.iter().map(|m| *m as usize).sum::<usize>() % TAG_NODES;
+    let mut rounds: Vec<(u8, Option<usize>)> = (0..=full).map(|q| (q, None)).collect();
+    rounds.push((0, Some(down_node)));
+    for (q, down) in rounds {
+        call += 1;
+        if let Some(d) = down {
+            nodes[d].sh_push(vec![Out::Refused; TAG_MAX_ATTEMPTS]);
+        }
+        for n in &nodes {
+            n.begin_call(call)?;
+        }
+        let results = driver.broadcast(&mask_tags(q), call);
+        let hung = matches!(results, Err(Res::Hang));
+        let mut attempts = Vec::new();
+        let mut expected = BTreeMap::new();
+        for (i, n) in nodes.iter().enumerate() {
+            let a = if hung { Vec::new() } else { n.end_call(call)? };
+            for x in &a {
+                if x.realized == Realized::ReplyOk {
+                    expected.insert((i, x.serial), n.sh.reply_value(x.serial));
+                }
+            }
+            attempts.push(a);
+        }
+        out.push(BcastObs { requested: q, down, results, attempts, expected_replies: expected });
+        if hung {
+            break;
+        }
+    }
+    let mut errs = Vec::new();
+    for n in &nodes {
+        errs.extend(n.errors());
+    }
+    drop(driver);
+    for n in nodes {
+        n.stop();
+    }
+    if !errs.is_empty() {
+        return Err(format!("fake node trouble: {}", errs.join("; ")));
+    }
+    Ok(out)
+}
+
+fn judge_tags(ts: &TagScenario, obs: &[BcastObs]) -> Vec<Viol> {
+    let f = ts.kind.name();
+    let mut out: Vec<Viol> = Vec::new();
+    for (round, b) in obs.iter().enumerate() {
+        let ctx_txt = |b: &BcastObs| {
+            format!(
+                "scenario {}; round {} requested={{{}}}{}; results={}; attempts per node={:?}",
+                ts.label(),
+                round + 1,
+                mask_tags(b.requested).join(","),
+                b.down.map(|d| format!(" (n{d} down)")).unwrap_or_default(),
+                match &b.results {
+                    Ok(m) => format!("{{{}}}", m.iter().map(|(k, v)| format!("{k}: {}", v.show())).collect::<Vec<_>>().join(", ")),
+                    Err(e) => e.show(),
+                },
+                b.attempts.iter().map(|a| a.len()).collect::<Vec<_>>()
+            )
+        };
+        let mut add = |key: String, what: String| {
+            if !out.iter().any(|v| v.key == key) {
+                out.push(Viol { key, what: format!("{what}; {}", ctx_txt(b)) });
+            }
+        };
+        let results = match &b.results {
+            Ok(m) => m,
+            Err(Res::Hang) => {
+                add(format!("C19:call-hung:{f}"), "broadcast did not return within the watchdog (>= 10 s of this process running)".into());
+                continue;
+            }
+            Err(e) => {
+                add(format!("C19:panic:{f}"), format!("broadcast panicked: {}", e.show()));
+                continue;
+            }
+        };
+        for i in 0..TAG_NODES {
+            let name = format!("n{i}");
+            let addressed = ts.assign[i] & b.requested == b.requested;
+            let n = b.attempts[i].len();
+            match (addressed, results.get(&name)) {
+                (true, None) => add(
+                    format!("C19:broadcast-missing-result:{f}"),
+                    format!("{name} carries all requested tags but the broadcast returned no result for it"),
+                ),
+                (false, Some(_)) => add(
+                    format!("C19:broadcast-extra-result:{f}"),
+                    format!("{name} does not carry all requested tags but the broadcast returned a result for it"),
+                ),
+                _ => {}
+            }
+            if !addressed && n > 0 {
+                add(
+                    format!("C19:broadcast-contacted-nonmatching-node:{f}"),
+                    format!("{name} does not carry all requested tags but received {n} attempt(s)"),
+                );
+            }
+            if addressed {
+                if n > TAG_MAX_ATTEMPTS {
+                    add(
+                        format!("C19:too-many-attempts:{f}"),
+                        format!("{name} received {n} attempts in one broadcast with max_attempts={TAG_MAX_ATTEMPTS}"),
+                    );
+                }
+                if let Some(r) = results.get(&name) {
+                    if b.down == Some(i) {
+                        if !r.is_io() {
+                            add(
+                                format!("C19:result-not-transport-error:{f}"),
+                                format!("{name} is down but its broadcast result is {}", r.show()),
+                            );
+                        }
+                    } else {
+                        let reply = b.attempts[i].iter().find(|a| a.realized == Realized::ReplyOk);
+                        let good = reply
+                            .and_then(|a| b.expected_replies.get(&(i, a.serial)))
+                            .is_some_and(|v| *r == Res::Ok(v.clone()));
+                        if !good {
+                            add(
+                                format!("C19:broadcast-wrong-result:{f}"),
+                                format!("{name} is healthy and addressed but its broadcast result is {} (attempts seen: {n})", r.show()),
+                            );
+                        }
+                    }
+                }
+            }
+        }
+        let extra: Vec<&String> = results.keys().filter(|k| !(0..TAG_NODES).any(|i| format!("n{i}") == **k)).collect();
+        if !extra.is_empty() {
+            add(format!("C19:broadcast-extra-result:{f}"), format!("results for unknown nodes {extra:?}"));
+        }
+    }
+    out
+}
+
+// ---------------------------------------------------------------------------
+// enumeration
+
+#[derive(Clone, Debug, PartialEq)]
+enum Case {
+    Single(Scenario),
+    Tags(TagScenario),
+}
+
+impl Case {
+    fn to_json(&self) -> Value {
+        match self {
+            Case::Single(s) => s.to_json(),
+            Case::Tags(t) => t.to_json(),
+        }
+    }
+    fn from_json(v: &Value) -> Option<Case> {
+        match v["shape"].as_str()? {
+            "single" => Scenario::from_json(v).map(Case::Single),
+            "tags" => TagScenario::from_json(v).map(Case::Tags),
+            _ => None,
+        }
+    }
+    fn label(&self) -> String {
+        match self {
+            Case::Single(s) => s.label(),
+            Case::Tags(t) => t.label(),
+        }
+    }
+}
+
+#[derive(Clone, Debug)]
+enum Block {
+    Single { kind: Kind, api: Api, max: usize, len: usize, garbage: Garbage },
+    Tags { kind: Kind },
+}
+
+impl Block {
+    fn count(&self) -> u64 {
+        match self {
+            Block::Single { len, .. } => crate::par::pow(ALPHABET.len() as u64, *len as u32),
+            Block::Tags { .. } => crate::par::pow(1 << TAGS.len(), TAG_NODES as u32),
+        }
+    }
+    fn case(&self, i: u64) -> Case {
+        match self {
+            Block::Single { kind, api, max, len, garbage } => {
+                let mut d = Vec::new();
+                crate::par::digits(i, ALPHABET.len() as u64, *len, &mut d);
+                // most significant digit first, so scripts come in lexicographic order
+                d.reverse();
+                Case::Single(Scenario {
+                    kind: *kind,
+                    api: *api,
+                    max: *max,
+                    garbage: *garbage,
+                    script: d.iter().map(|x| ALPHABET[*x as usize]).collect(),
+                })
+            }
+            Block::Tags { kind } => {
+                let mut d = Vec::new();
+                crate::par::digits(i, 1 << TAGS.len(), TAG_NODES, &mut d);
+                let mut assign = [0u8; TAG_NODES];
+                assign.copy_from_slice(&d);
+                Case::Tags(TagScenario { kind: *kind, assign })
+            }
+        }
+    }
+}
+
+struct Plan {
+    blocks: Vec<Block>,
+    starts: Vec<u64>,
+    total: u64,
+}
+
+impl Plan {
+    fn new(tier: Tier) -> Plan {
+        let max_hi = tier.pick(2usize, 3usize);
+        let mut blocks = Vec::new();
+        for kind in [Kind::Blocking, Kind::Async] {
+            blocks.push(Block::Tags { kind });
+        }
+        // simplest first: by length, then max_attempts, fleet, API
+        for len in 0..=max_hi + 2 {
+            for max in 1..=max_hi {
+                if len > max + 2 {
+                    continue;
+                }
+                for kind in [Kind::Blocking, Kind::Async] {
+                    for api in [Api::Json, Api::Message] {
+                        // quick runs call_message (a second copy of the same loop)
+                        // only on the short scripts; thorough on everything
+                        if api == Api::Message && len > tier.pick(2, usize::MAX) {
+                            continue;
+                        }
+                        blocks.push(Block::Single { kind, api, max, len, garbage: Garbage::BadSpec });
+                        // the other malformation on the short scripts
+                        if len >= 1 && len <= tier.pick(2, 3) && api == Api::Json {
+                            blocks.push(Block::Single { kind, api, max, len, garbage: Garbage::BadLength });
+                        }
+                    }
+                }
+            }
+        }
+        let mut starts = Vec::new();
+        let mut total = 0u64;
+        for b in &blocks {
+            starts.push(total);
+            total += b.count();
+        }
+        Plan { blocks, starts, total }
+    }
+    fn case(&self, i: u64) -> Case {
+        let b = match self.starts.binary_search(&i) {
+            Ok(mut b) => {
+                // skip empty blocks sharing a start (none today, be safe)
+                while self.blocks[b].count() == 0 {
+                    b += 1;
+                }
+                b
+            }
+            Err(b) => b - 1,
+        };
+        self.blocks[b].case(i - self.starts[b])
+    }
+}
+
+// ---------------------------------------------------------------------------
+// execution + statistics
+
+#[derive(Default)]
+struct Stats {
+    counters: BTreeMap<String, u64>,
+    signatures: BTreeSet<String>,
+    candidates: Vec<(u64, Vec<Viol>)>,
+    machinery: Vec<String>,
+    scenarios: u64,
+    calls: u64,
+    attempts: u64,
+}
+
+impl Stats {
+    fn bump(&mut self, k: &str) {
+        *self.counters.entry(k.to_string()).or_insert(0) += 1;
+    }
+    fn add(&mut self, k: &str, n: u64) {
+        *self.counters.entry(k.to_string()).or_insert(0) += n;
+    }
+    fn merge(&mut self, o: Stats) {
+        for (k, v) in o.counters {
+            *self.counters.entry(k).or_insert(0) += v;
+        }
+        self.signatures.extend(o.signatures);
+        self.candidates.extend(o.candidates);
+        self.machinery.extend(o.machinery);
+        self.scenarios += o.scenarios;
+        self.calls += o.calls;
+        self.attempts += o.attempts;
+    }
+}
+
+fn account_single(st: &mut Stats, sc: &Scenario, obs: &ScenObs) {
+    let f = sc.kind.name();
+    st.scenarios += 1;
+    if obs.stalled {
+        st.bump(&format!("{f}:scenarios_stalled_in_script_phase"));
+        st.add(&format!("{f}:script_outcomes_never_reached"), obs.dropped_outcomes as u64);
+    }
+    for c in &obs.calls {
+        st.calls += 1;
+        st.attempts += c.attempts.len() as u64;
+        for a in &c.attempts {
+            st.bump(&format!("{f}:attempts:{}", a.outcome.name()));
+            if a.realized == Realized::DownReset {
+                st.bump(&format!("{f}:refused_realised_as_reset_of_live_connection"));
+            }
+            if !a.fresh_conn && a.conn != 0 {
+                st.bump(&format!("{f}:attempts_on_cached_connection"));
+            }
+        }
+        let n = c.attempts.len();
+        if n >= 2 {
+            st.bump(&format!("{f}:calls_with_retry"));
+        }
+        if n == sc.max && sc.max >= 2 && c.attempts.iter().all(|a| !a.outcome.is_reply()) {
+            st.bump(&format!("{f}:calls_budget_exhausted_without_reply"));
+        }
+        if n >= 2 && c.attempts.last().is_some_and(|a| a.outcome.is_reply()) {
+            st.bump(&format!("{f}:calls_reply_after_retry"));
+        }
+        if n >= 1 && n < sc.max && c.attempts.last().is_some_and(|a| matches!(a.outcome, Out::Refused | Out::AcceptClose | Out::Silent)) {
+            st.bump(&format!("{f}:calls_stopped_early_on_transport_failure(info)"));
+        }
+        if c.excused {
+            st.bump(&format!("{f}:calls_after_killed_connection"));
+            if n == 0 {
+                st.bump(&format!("{f}:calls_failed_on_dead_cached_connection"));
+            }
+        }
+        if c.healthy_phase {
+            st.bump(&format!("{f}:healthy_calls"));
+            if matches!(c.res, Res::Ok(_)) {
+                st.bump(&format!("{f}:healthy_calls_succeeded"));
+            }
+        }
+        if c.connected_after == Some(true) && !matches!(c.res, Res::Ok(_) | Res::Server { .. }) && n == 0 {
+            st.bump(&format!("{f}:is_connected_true_after_unreached_call(info)"));
+        }
+        st.bump(&format!("{f}:result:{}", c.res.class()));
+        // informational: agreement with the exact retry loop
+        if !c.excused && n >= 1 && !c.healthy_phase {
+            let mut predicted = 0usize;
+            for o in c.remaining_at_start.iter().take(sc.max) {
+                predicted += 1;
+                if !matches!(o, Out::Refused | Out::AcceptClose | Out::Silent) {
+                    break;
+                }
+            }
+            if predicted == n {
+                st.bump("info:calls_agreeing_with_exact_loop");
+            } else {
+                st.bump("info:calls_differing_from_exact_loop");
+            }
+        }
+        st.signatures.insert(format!("{f}|{}|max{}|{}->{}", sc.api.name(), sc.max, show_attempts(&c.attempts), c.res.class()));
+    }
+}
+
+fn account_tags(st: &mut Stats, ts: &TagScenario, obs: &[BcastObs]) {
+    let f = ts.kind.name();
+    st.scenarios += 1;
+    for b in obs {
+        st.calls += 1;
+        let addressed = (0..TAG_NODES).filter(|i| ts.assign[*i] & b.requested == b.requested).count();
+        st.bump(&format!("{f}:broadcasts"));
+        st.bump(&format!("{f}:broadcasts_addressing_{addressed}_of_{TAG_NODES}"));
+        if b.down.is_some() {
+            st.bump(&format!("{f}:broadcasts_with_a_node_down"));
+        }
+        for a in &b.attempts {
+            st.attempts += a.len() as u64;
+        }
+        if let Ok(m) = &b.results {
+            st.add(&format!("{f}:broadcast_results"), m.len() as u64);
+            st.signatures.insert(format!(
+                "{f}|broadcast|req{}|{}",
+                b.requested,
+                (0..TAG_NODES)
+                    .map(|i| match m.get(&format!("n{i}")) {
+                        Some(r) => r.class(),
+                        None => "-".into(),
+                    })
+                    .collect::<Vec<_>>()
+                    .join(",")
+            ));
+        }
+    }
+}
+
+/// Debug aid: `C19_DUMP=<file>` writes one line per accepted single-node scenario.
+static DUMP: std::sync::OnceLock<std::sync::Mutex<std::fs::File>> = std::sync::OnceLock::new();
+
+/// One execution of one case: verdicts, its statistics, a printable trace.
+struct Exec {
+    viols: Vec<Viol>,
+    stats: Stats,
+    trace: String,
+    disturbed: Option<String>,
+}
+
+/// Run one case; repeat it while the machine disturbs it (bounded: a
+/// "disturbance" that shows every time is the code's own slowness and is judged
+/// as observed).
+fn execute(case: &Case) -> Result<Exec, String> {
+    let mut last = execute_once(case)?;
+    let mut n = 0;
+    while last.disturbed.is_some() && n < DISTURBED_RETRIES {
+        n += 1;
+        DISTURBED_RERUNS.fetch_add(1, Ordering::Relaxed);
+        last = execute_once(case)?;
+    }
+    if last.disturbed.is_some() {
+        DISTURBED_KEPT.fetch_add(1, Ordering::Relaxed);
+    }
+    Ok(last)
+}
+
+static DISTURBED_RERUNS: AtomicU64 = AtomicU64::new(0);
+static DISTURBED_KEPT: AtomicU64 = AtomicU64::new(0);
+
+/// Run one case once. Err = harness trouble (never a verdict).
+fn execute_once(case: &Case) -> Result<Exec, String> {
+    let mut stats = Stats::default();
+    match case {
+        Case::Single(sc) => {
+            let obs = run_single(sc)?;
+            let viols = judge_single(sc, &obs);
+            account_single(&mut stats, sc, &obs);
+            let disturbed = obs.disturbed.clone();
+            Ok(Exec { viols, stats, trace: show_calls(&obs), disturbed })
+        }
+        Case::Tags(ts) => {
+            let obs = run_tags(ts)?;
+            let viols = judge_tags(ts, &obs);
+            account_tags(&mut stats, ts, &obs);
+            let trace = obs
+                .iter()
+                .map(|b| {
+                    format!(
+                        "req={{{}}}{} -> {}",
+                        mask_tags(b.requested).join(","),
+                        b.down.map(|d| format!(" n{d} down")).unwrap_or_default(),
+                        match &b.results {
+                            Ok(m) => m.iter().map(|(k, v)| format!("{k}:{}", v.class())).collect::<Vec<_>>().join(","),
+                            Err(e) => e.show(),
+                        }
+                    )
+                })
+                .collect::<Vec<_>>()
+                .join(" | ");
+            Ok(Exec { viols, stats, trace, disturbed: None })
+        }
+    }
+}
+
+fn keys_of(v: &[Viol]) -> BTreeSet<String> {
+    v.iter().map(|x| x.key.clone()).collect()
+}
+
+static CONFIRMED: std::sync::Mutex<BTreeSet<String>> = std::sync::Mutex::new(BTreeSet::new());
+
+enum Settled {
+    /// the accepted execution and the violations that reproduced in every run
+    Done { exec: Exec, confirmed: Vec<Viol>, dropped: Vec<String> },
+    Trouble(String),
+}
+
+/// Execute a case; anything that looks like a violation (or like harness
+/// trouble) must reproduce from the same case before it counts: a violation key
+/// is kept if it shows in the first run and in both re-runs (or, after a single
+/// miss, in two further runs). What does not reproduce is dropped and counted;
+/// a key that keeps flickering is harness nondeterminism.
+fn settle(case: &Case) -> Settled {
+    let mut trouble = Vec::new();
+    let mut first = None;
+    for _ in 0..3 {
+        match execute(case) {
+            Ok(e) => {
+                first = Some(e);
+                break;
+            }
+            Err(e) => trouble.push(e),
+        }
+    }
+    let Some(first) = first else {
+        return Settled::Trouble(trouble.join(" / "));
+    };
+    let mut dropped: Vec<String> = trouble.iter().map(|t| format!("harness trouble that did not persist: {t}")).collect();
+    if first.viols.is_empty() {
+        return Settled::Done { exec: first, confirmed: Vec::new(), dropped };
+    }
+    // a key that already reproduced on an earlier case needs no new proof (the
+    // verdict cannot change any more, only the count of cases)
+    let all_known = {
+        let g = CONFIRMED.lock().unwrap_or_else(|p| p.into_inner());
+        first.viols.iter().all(|v| g.contains(&v.key))
+    };
+    if all_known {
+        let confirmed = first.viols.clone();
+        return Settled::Done { exec: first, confirmed, dropped };
+    }
+    let mut runs: Vec<Exec> = vec![first];
+    let extra = |runs: &mut Vec<Exec>, n: usize| -> Result<(), String> {
+        for _ in 0..n {
+            runs.push(execute(case)?);
+        }
+        Ok(())
+    };
+    if let Err(e) = extra(&mut runs, 2) {
+        return Settled::Trouble(format!("re-run failed: {e}"));
+    }
+    let keys = keys_of(&runs[0].viols);
+    let mut confirmed = Vec::new();
+    for key in &keys {
+        let hits = |runs: &[Exec]| runs.iter().filter(|r| r.viols.iter().any(|v| &v.key == key)).count();
+        let mut h = hits(&runs);
+        let mut of = runs.len();
+        if h == 2 {
+            // one miss among the three: two more decide
+            let from = runs.len();
+            if let Err(e) = extra(&mut runs, 2) {
+                return Settled::Trouble(format!("re-run failed: {e}"));
+            }
+            h = hits(&runs[from..]);
+            of = 2;
+            if h == 1 {
+                return Settled::Trouble(format!("nondeterministic observation: {key} on {} shows in some runs only", case.label()));
+            }
+        }
+        if h == of {
+            confirmed.push(runs[0].viols.iter().find(|v| &v.key == key).unwrap().clone());
+            CONFIRMED.lock().unwrap_or_else(|p| p.into_inner()).insert(key.clone());
+        } else {
+            dropped.push(format!("candidate {key} on {} did not reproduce", case.label()));
+        }
+    }
+    // the accepted execution: the first one if something was confirmed, else
+    // the first clean one, else the last
+    let pick = if !confirmed.is_empty() {
+        0
+    } else {
+        runs.iter().position(|r| r.viols.is_empty()).unwrap_or(runs.len() - 1)
+    };
+    let exec = runs.swap_remove(pick);
+    Settled::Done { exec, confirmed, dropped }
+}
+
+pub fn run(tier: Tier) -> ! {
+    let ctx = Ctx::new("C19", tier);
+    let hook = std::panic::take_hook();
+    std::panic::set_hook(Box::new(|_| {}));
+
+    if let Err(e) = node::seam_works() {
+        ctx.machinery(format!("connect seam: {e}"));
+    }
+    if let Ok(p) = std::env::var("C19_DUMP") {
+        if let Ok(f) = std::fs::File::create(&p) {
+            let _ = DUMP.set(std::sync::Mutex::new(f));
+        }
+    }
+    if let Ok(p) = std::env::var("C19_STRESS") {
+        // debug aid: run one recorded case many times in parallel
+        let doc: Value = serde_json::from_slice(&std::fs::read(&p).expect("stress file")).expect("stress json");
+        let case = Case::from_json(&doc["case"]).expect("stress case");
+        let n: u64 = std::env::var("C19_STRESS_N").ok().and_then(|s| s.parse().ok()).unwrap_or(1000);
+        let cursor = AtomicU64::new(0);
+        let odd = AtomicU64::new(0);
+        std::thread::scope(|scope| {
+            for _ in 0..(crate::par::workers() * 2) {
+                scope.spawn(|| {
+                    while cursor.fetch_add(1, Ordering::Relaxed) < n {
+                        match execute_once(&case) {
+                            Ok(e) if e.viols.is_empty() => {}
+                            Ok(e) => {
+                                odd.fetch_add(1, Ordering::Relaxed);
+                                eprintln!("STRESS odd: {:?} :: {}", keys_of(&e.viols), e.trace);
+                            }
+                            Err(e) => eprintln!("STRESS trouble: {e}"),
+                        }
+                    }
+                });
+            }
+        });
+        eprintln!("STRESS done: {} odd of {n}", odd.load(Ordering::Relaxed));
+        std::process::exit(0);
+    }
+    let plan = Plan::new(tier);
+    let samples = Samples::new(12);
+    // scenarios mostly wait (150 ms node timeouts), so run two per core
+    let jobs = (crate::par::workers() * 2).max(2);
+    let cursor = AtomicU64::new(0);
+    let t0 = Instant::now();
+    let mut total = Stats::default();
+    let mut dropped_all: Vec<String> = Vec::new();
+    std::thread::scope(|scope| {
+        let mut hs = Vec::new();
+        for _ in 0..jobs {
+            let cursor = &cursor;
+            let plan = &plan;
+            let samples = &samples;
+            hs.push(scope.spawn(move || {
+                let mut st = Stats::default();
+                let mut dropped_here = Vec::new();
+                loop {
+                    let i = cursor.fetch_add(1, Ordering::Relaxed);
+                    if i >= plan.total {
+                        break;
+                    }
+                    let case = plan.case(i);
+                    match settle(&case) {
+                        Settled::Done { exec, confirmed, dropped } => {
+                            if let Some(d) = DUMP.get() {
+                                use std::io::Write;
+                                let _ = writeln!(d.lock().unwrap(), "{} :: {}", case.label(), exec.trace);
+                            }
+                            if matches!(&case, Case::Single(s) if s.script.len() >= 2) || i % 97 == 0 {
+                                samples.offer(|| json!({"case": case.label(), "observed": exec.trace, "violations": confirmed.len()}));
+                            }
+                            st.merge(exec.stats);
+                            if !confirmed.is_empty() {
+                                st.candidates.push((i, confirmed));
+                            }
+                            dropped_here.extend(dropped);
+                        }
+                        Settled::Trouble(e) => st.machinery.push(format!("{}: {e}", case.label())),
+                    }
+                }
+                (st, dropped_here)
+            }));
+        }
+        for h in hs {
+            match h.join() {
+                Ok((s, d)) => {
+                    total.merge(s);
+                    dropped_all.extend(d);
+                }
+                Err(e) => std::panic::resume_unwind(e),
+            }
+        }
+    });
+    std::panic::set_hook(hook);
+    let sweep_s = t0.elapsed().as_secs_f64();
+    if let Some(m) = total.machinery.first() {
+        ctx.machinery(format!("{} scenario(s) could not be run; first: {m}", total.machinery.len()));
+    }
+    dropped_all.sort();
+    for d in dropped_all.iter().take(6) {
+        ctx.note(format!("dropped (not reproducible): {d}"));
+    }
+    let transient = dropped_all.len() as u64;
+    let hangs_gone = dropped_all.iter().filter(|d| d.contains("C19:call-hung")).count();
+    if hangs_gone > 2 {
+        ctx.machinery(format!("{hangs_gone} watchdog expiries did not reproduce on re-run"));
+    }
+    if transient * 50 > plan.total {
+        ctx.machinery(format!(
+            "{transient} of {} scenarios produced observations that did not reproduce: the machine is too loaded for the {} ms node timeout",
+            plan.total,
+            NODE_TIMEOUT.as_millis()
+        ));
+    }
+
+    // report, in enumeration order
+    total.candidates.sort_by_key(|(i, _)| *i);
+    let mut confirmed_keys: BTreeSet<String> = BTreeSet::new();
+    for (i, vs) in &total.candidates {
+        for v in vs {
+            confirmed_keys.insert(v.key.clone());
+            ctx.violation(v.key.clone(), v.what.clone(), plan.case(*i).to_json());
+        }
+    }
+    let confirmed_keys = confirmed_keys.len() as u64;
+
+    let c = |k: &str| total.counters.get(k).copied().unwrap_or(0);
+    // non-vacuity: every outcome really inflicted, every interesting branch taken
+    if !ctx.has_violation() {
+        let mut missing = Vec::new();
+        for f in ["fleet", "async"] {
+            for o in ALPHABET {
+                if c(&format!("{f}:attempts:{}", o.name())) == 0 {
+                    missing.push(format!("{f}:attempts:{}", o.name()));
+                }
+            }
+            for k in [
+                "calls_with_retry",
+                "calls_budget_exhausted_without_reply",
+                "calls_reply_after_retry",
+                "calls_after_killed_connection",
+                "attempts_on_cached_connection",
+                "healthy_calls_succeeded",
+                "broadcasts_addressing_0_of_4",
+                "broadcasts_addressing_2_of_4",
+                "broadcasts_addressing_4_of_4",
+                "broadcasts_with_a_node_down",
+            ] {
+                if c(&format!("{f}:{k}")) == 0 {
+                    missing.push(format!("{f}:{k}"));
+                }
+            }
+        }
+        if !missing.is_empty() {
+            ctx.machinery(format!("vacuous exploration, never observed: {}", missing.join(", ")));
+        }
+        if total.signatures.len() < 2 {
+            ctx.machinery("fewer than two distinct observations");
+        }
+    }
+    ctx.note(format!(
+        "sweep {:.1}s, {} scenarios, {} fleet calls/broadcasts, {} attempts at fake nodes, {} jobs",
+        sweep_s, total.scenarios, total.calls, total.attempts, jobs
+    ));
+
+    let max_hi = tier.pick(2, 3);
+    let coverage = json!({
+        "evaluations": total.scenarios,
+        "fleet_calls_checked": total.calls,
+        "attempts_observed": total.attempts,
+        "distinct_nontrivial": total.signatures.len(),
+        "exhaustive": true,
+        "rule": "for max_attempts in 1..=M, both fleets: every script over the 7 outcomes of length 0..=max_attempts+2 (one outcome per attempt, in order), then 2 calls against the healthy node; call_json on all of them, call_message on lengths <= L; malformed = bad spec magic everywhere and a length mismatch on the short scripts; broadcast: 4 nodes, every assignment of subsets of 2 tags (4^4) x every requested subset, plus one round with a node down",
+        "bound": {"max_attempts": format!("1..={max_hi}"), "script_length": "0..=max_attempts+2", "call_message_script_length": tier.pick("0..=2", "all"), "healthy_calls": HEALTHY_CALLS, "tag_nodes": TAG_NODES, "tags": TAGS.len()},
+        "alphabet": ALPHABET.iter().map(|o| o.name()).collect::<Vec<_>>(),
+        "node_timeout_ms": NODE_TIMEOUT.as_millis() as u64,
+        "retry_delay_ms": RETRY_DELAY.as_millis() as u64,
+        "scenarios_planned": plan.total,
+        "candidate_violations_not_reproduced": transient,
+        "watchdog_expiries_not_reproduced": hangs_gone,
+        "runs_repeated_because_the_machine_disturbed_them": DISTURBED_RERUNS.load(Ordering::Relaxed),
+        "scenarios_slow_in_every_repetition": DISTURBED_KEPT.load(Ordering::Relaxed),
+        "violation_keys_confirmed_by_rerun": confirmed_keys,
+        "nonvacuity": total.counters,
+        "samples": samples.take(),
+    });
+    ctx.finish(
+        "fault_enumeration",
+        coverage,
+        &[
+            "attempts are what the fake node can see: a connect() to its port (counted at the process's connect(2) boundary, which the harness interposes), or a whole request arriving on a connection; an attempt that dies inside the fleet on a connection the node already closed is invisible and is granted once per killed connection",
+            "refused = the node's socket is taken out of LISTEN for exactly that connect; if 'refused' is due while the fleet still holds a live connection the node first goes down (closes it while idle)",
+            "accepted-then-closed = the request has arrived but is never read and the connection is closed (RST), so the fleet's write has completed; closed-while-idle = the attempt is answered normally and, once the call has returned, the node half-closes and waits for the fleet's FIN before the next call",
+            "verdicts depend on counts and results only; time is used for one thing: a run in which a call overran by about a node timeout (>= 120 ms beyond its silent attempts) or in which a request surfaced after its call had returned was disturbed by the machine and is repeated (up to 5 times, then judged as observed)",
+            "a violation is reported only if the same key shows in the first run of its case and in both re-runs (after a single miss: in two further runs); what does not reproduce is dropped and counted, more than 2% of scenarios dropped or more than two unreproduced watchdog expiries are a machinery error; a key proven once is not re-proven on later cases",
+            "loopback TCP on Linux; kernel behaviours other than the scripted ones are not covered",
+        ],
+    )
+}
+
+pub fn replay(case: &Value) -> Result<(), String> {
+    let Some(case) = Case::from_json(case) else {
+        return Err("C19 replay: case does not parse".into());
+    };
+    let hook = std::panic::take_hook();
+    std::panic::set_hook(Box::new(|_| {}));
+    let r = execute(&case);
+    std::panic::set_hook(hook);
+    match r {
+        Ok(e) if e.viols.is_empty() => {
+            println!("observed: {}", e.trace);
+            Ok(())
+        }
+        Ok(e) => Err(e.viols.iter().map(|x| format!("key={} :: {}", x.key, x.what)).collect::<Vec<_>>().join("\n")),
+        Err(e) => Err(format!("harness trouble (not a verdict): {e}")),
+    }
 }
